@@ -3,6 +3,7 @@ use std::io::{BufRead, Write};
 
 mod asm;
 mod info;
+mod sym;
 mod helper;
 
 fn main() {
@@ -17,6 +18,8 @@ fn main() {
         let res = match mode.as_str() {
             "asm" => asm::run(&toks),
             "info" => info::run(&toks),
+            "sym" => sym::run_sym(&toks),
+            "src" => sym::run_src(&toks),
             _ => panic!("unknown mode"),
         };
         writeln!(out, "{}", res).unwrap();
